@@ -491,6 +491,9 @@ type c08Res struct {
 	FirstS   string   `json:"first_s"`
 	Inert    bool     `json:"inert"` // every injected datagram had to be without effect at the moment it arrived
 	                               // (a drop class, or a warning alert while the target's handshake was running)
+	LossMs   int64    `json:"loss_ms"` // lossper: virtual ms from the start of the session to the loss (-1: no loss happened)
+	DoneMs   int64    `json:"done_ms"` // lossper: virtual ms from the start to the completion of both handshakes (-1: never)
+	IvalMs   int64    `json:"ival_ms"` // lossper: the flight (retransmission) interval of the endpoints
 	Note     string   `json:"note,omitempty"`
 	Hex      string   `json:"hex,omitempty"` // trace lines
 	HeapMB   float64  `json:"heap_mb,omitempty"`
@@ -1344,6 +1347,17 @@ func (s *c08Sess) batch(c c08Case, rng *vRand, target string, pending []byte) {
 			d[10] = byte(40 + i)
 			binary.BigEndian.PutUint16(d[11:], uint16(len(d)-13)) //nolint:gosec
 			s.inject(target, d, c08Classify(d, ctx), "lossinj")
+		case "lossper":
+			// one far-future fragment per call (the caller repeats it every quarter of the flight interval).
+			// Item 0: fresh every time (new small record number, new message_seq); Item 1: the identical datagram
+			k := s.res.Inj
+			if c.Item == 1 {
+				k = 0
+			}
+			d := append([]byte{22, 0xfe, 0xfd, 0, 0, 0, 0, 0, 0, 0, 40, 0, 0}, c08HsMsg(2, (ctx.recv+300+k)&0xffff, []byte{1, 2, 3, 4, 5, 6, 7, 8}, 64, 0, 8)...)
+			d[10] = byte(40 + k)
+			binary.BigEndian.PutUint16(d[11:], uint16(len(d)-13)) //nolint:gosec
+			s.inject(target, d, c08Classify(d, ctx), "lossper")
 		case "pinlen":
 			// ONE forged first fragment of the NEXT expected message: offset 0, declared length 5000, one byte
 			d := append([]byte{22, 0xfe, 0xfd, 0, 0, 0, 0, 0, 0, 0, 44, 0, 0}, c08HsMsg(byte(c.Item), ctx.recv&0xffff, []byte{1}, 5000, 0, 1)...)
@@ -1509,7 +1523,8 @@ func (s *c08Sess) batch(c c08Case, rng *vRand, target string, pending []byte) {
 func c08Run(t *testing.T, out *vOut, c c08Case, trace bool) c08Res {
 	t.Helper()
 	v := c08VariantByName(c.Variant)
-	res := c08Res{Kind: "case", ID: c.ID, Variant: c.Variant, Stage: c.Stage, Gen: c.Gen, DropOnly: true, Inert: true}
+	res := c08Res{Kind: "case", ID: c.ID, Variant: c.Variant, Stage: c.Stage, Gen: c.Gen, DropOnly: true, Inert: true,
+		LossMs: -1, DoneMs: -1}
 	s := &c08Sess{
 		t: t, v: v, out: out, trace: trace, id: c.ID, res: &res,
 		evs: map[string]*[]c08ReadEv{}, seen: map[string]int{}, wrote: map[string]bool{},
@@ -1547,6 +1562,7 @@ func c08Run(t *testing.T, out *vOut, c c08Case, trace bool) c08Res {
 		ccfg.psk = func([]byte) ([]byte, error) { return big, nil }
 		scfg.psk = func([]byte) ([]byte, error) { return big, nil }
 	}
+	t0 := time.Now()
 	lab := newLab(t, ccfg, scfg)
 	s.lab = lab
 	c08Watch.mu.Lock()
@@ -1554,6 +1570,19 @@ func c08Run(t *testing.T, out *vOut, c c08Case, trace bool) c08Res {
 	c08Watch.mu.Unlock()
 	injected := false
 	lab.Pump.Policy = func(d vDatagram) (vAction, int) {
+		if c.Gen == "lossper" {
+			if d.Idx == c.Stage && !injected {
+				// this transmission is lost; from now on its SENDER gets a harmless forged record every quarter of
+				// the flight interval (driven below): its retransmission timer must still fire on time
+				injected = true
+				res.Target = d.From
+				res.LossMs = time.Since(t0).Milliseconds()
+
+				return vDrop, 0
+			}
+
+			return vPass, 0
+		}
 		if c.Gen == "lossinj" {
 			if d.Idx == c.Stage && !injected {
 				// this transmission is lost; at that moment its SENDER gets one harmless forged record: it must
@@ -1578,7 +1607,24 @@ func c08Run(t *testing.T, out *vOut, c c08Case, trace bool) c08Res {
 
 		return vPass, 0
 	}
+	if c.Gen == "lossper" {
+		// run up to the loss, then c.N periods of a quarter interval each (first forged record an eighth of an
+		// interval after the loss, so that none coincides with the timer), then let the handshake finish
+		ival := lab.Client.Conn.handshakeConfig.InitialRetransmitInterval
+		res.IvalMs = ival.Milliseconds()
+		lab.Pump.run(func() bool { return injected || lab.bothDone() }, 150*time.Second)
+		if injected {
+			lab.Pump.run(lab.bothDone, ival/8)
+			for k := 0; k < c.N && !lab.bothDone(); k++ {
+				s.batch(c08Case{Item: c.Item, ID: c.ID, Variant: c.Variant, Stage: c.Stage, Gen: c.Gen, N: 1}, rng, res.Target, nil)
+				lab.Pump.run(lab.bothDone, ival/4)
+			}
+		}
+	}
 	ok := lab.Pump.run(lab.bothDone, 150*time.Second)
+	if c.Gen == "lossper" && lab.bothDone() {
+		res.DoneMs = time.Since(t0).Milliseconds()
+	}
 	res.Done = lab.established()
 	res.CErr, res.SErr = "pending", "pending"
 	if lab.Client.handshakeDone() {
@@ -1753,6 +1799,14 @@ func c08Cases(seed uint64, thorough bool) []c08Case {
 					// F62 and relatives: datagram #st (up to the last one of the handshake) is lost and its sender gets a
 					// harmless forged record at that moment
 					add(v.Name, st, "lossinj", 1)
+				}
+				for st := 0; st <= 10; st++ {
+					// retransmission starved: datagram #st is lost and from then on its sender gets a harmless forged
+					// record every quarter of the flight interval for 8 intervals (fresh ones / one identical one)
+					for it := 0; it < 2; it++ {
+						add(v.Name, st, "lossper", 32)
+						cases[len(cases)-1].Item = it
+					}
 				}
 				add(v.Name, -1, "flood-cache-auth", 300)
 				add(v.Name, -1, "flood-cache-auth", 300)
